@@ -9,6 +9,7 @@ frame.parse max=<n> <hex>   → <readFrame result> consumed=<n> pool=<counts> an
 frame.reuse max=<n> <hex>   → reuse=<0|1>
 frame.spec max=<n> <hex>    → <Spec.parse result> sendwf=<0|1>
 frame.write <TYPE> s=<n> fl=<n> pad=<n> k=v …  → ok <hex> :: want=<canonical frame>
+    (pad: 0 = no padding, else the pad length `AddPadding` draws; PUSH_PROMISE: promised=<id> eh=<0|1> frag=<hex>)
 ```
 -/
 namespace H2.Frame.Drv
@@ -86,7 +87,7 @@ def parseW (t : String) (a : List String) : Option WFrame :=
   | "RST_STREAM" => some (.rstStream (kvNat a "code"))
   | "SETTINGS" =>
     some (.settings (kvBool a "ack") (kvNat a "ts") (kvBool a "push") (kvNat a "mcs") (kvNat a "ws") (kvNat a "fs") (kvNat a "hs"))
-  | "PUSH_PROMISE" => some (.pushPromise (kvHex a "frag"))
+  | "PUSH_PROMISE" => some (.pushPromise (kvNat a "promised") (kvBool a "eh") (kvHex a "frag"))
   | "PING" => some (.ping (kvBool a "ack") (kvHex a "data"))
   | "GOAWAY" => some (.goAway (kvNat a "last") (kvNat a "code") (kvHex a "debug"))
   | "WINDOW_UPDATE" => some (.windowUpdate (kvNat a "inc"))
